@@ -179,6 +179,82 @@ func planCanon(p *Prog, stdlib, methods bool) canonPlan {
 			ast.Inspect(file, func(n ast.Node) bool {
 				switch x := n.(type) {
 				case *ast.RangeStmt:
+					// a loop over a short literal list is the body repeated for each element:
+					// for _, v := range []T{a, b} { body }  ->  { var v T = a; body } { var v T = b; body }
+					if lit, isLit := ast.Unparen(x.X).(*ast.CompositeLit); isLit && x.Tok == token.DEFINE && len(lit.Elts) >= 1 && len(lit.Elts) <= 8 && free(x.Pos(), x.End()) {
+						okU := true
+						for _, el := range lit.Elts {
+							if _, isKV := el.(*ast.KeyValueExpr); isKV {
+								okU = false
+							}
+						}
+						var elemT types.Type
+						if tv, has := info.Types[lit]; has && tv.Type != nil {
+							switch t := tv.Type.Underlying().(type) {
+							case *types.Slice:
+								elemT = t.Elem()
+							case *types.Array:
+								elemT = t.Elem()
+							}
+						}
+						if elemT == nil {
+							okU = false
+						}
+						// no branch statement that could refer to this loop, no label, no defer, no nested literal edits pending
+						ast.Inspect(x.Body, func(m ast.Node) bool {
+							switch m.(type) {
+							case *ast.FuncLit:
+								return false
+							case *ast.BranchStmt, *ast.LabeledStmt, *ast.DeferStmt:
+								okU = false
+							}
+							return okU
+						})
+						if _, isLabeled := p.parents[x].(*ast.LabeledStmt); isLabeled {
+							okU = false
+						}
+						switch p.parents[x].(type) {
+						case *ast.BlockStmt, *ast.CaseClause, *ast.CommClause:
+						default:
+							okU = false
+						}
+						var tt string
+						if okU {
+							var okT bool
+							tt, okT = typeText(elemT, x.Pos())
+							okU = okT
+						}
+						if okU {
+							for k := range pendingImports {
+								delete(pendingImports, k) // element types that need a new import: not unrolled
+								okU = false
+							}
+						}
+						if okU {
+							body := in.text(x.Body.Lbrace+1, x.Body.Rbrace)
+							var sb strings.Builder
+							for i, el := range lit.Elts {
+								sb.WriteString("{\n")
+								if kid, isId := x.Key.(*ast.Ident); isId && kid.Name != "_" {
+									sb.WriteString(fmt.Sprintf("%s := %d\n_ = %s\n", kid.Name, i, kid.Name))
+								}
+								if vid, isId := x.Value.(*ast.Ident); isId && vid.Name != "_" {
+									sb.WriteString("var " + vid.Name + " " + tt + " = " + in.text(el.Pos(), el.End()) + "\n_ = " + vid.Name + "\n")
+								} else if x.Value == nil || true {
+									if x.Value == nil || x.Value.(*ast.Ident).Name == "_" {
+										sb.WriteString("_ = " + in.text(el.Pos(), el.End()) + "\n")
+									}
+								}
+								sb.WriteString(body)
+								sb.WriteString("\n}\n")
+							}
+							fe := in.file(x.Pos())
+							fe.edits = append(fe.edits, textEdit{start: in.off(x.Pos()), end: in.off(x.End()), text: sb.String()})
+							taken = append(taken, [2]token.Pos{x.Pos(), x.End()})
+							plan.expanded = append(plan.expanded, "loop over a literal list unrolled")
+							return false
+						}
+					}
 					// for k := range maps.Keys(m)  ->  for k := range m ; for v := range maps.Values(m) -> for _, v := range m
 					call, ok := ast.Unparen(x.X).(*ast.CallExpr)
 					if !ok || len(call.Args) != 1 || x.Value != nil || x.Key == nil {
@@ -240,6 +316,60 @@ func planCanon(p *Prog, stdlib, methods bool) canonPlan {
 							result = "int"
 							body = "\tfor i, x := range s {\n\t\tif " + test + " {\n\t\t\treturn i\n\t\t}\n\t}\n\treturn -1\n"
 						}
+					case "slices.Sort":
+						// slices.Sort(x) for a []string / []int / []float64 is sort.Strings(x) / sort.Ints / sort.Float64s
+						if len(x.Args) != 1 || !free(x.Pos(), x.End()) {
+							return true
+						}
+						fnName := ""
+						if tv, has := info.Types[x.Args[0]]; has && tv.Type != nil {
+							if sl, isSl := tv.Type.Underlying().(*types.Slice); isSl && types.Identical(tv.Type, types.NewSlice(sl.Elem())) {
+								if bt, isB := sl.Elem().(*types.Basic); isB {
+									switch bt.Kind() {
+									case types.String:
+										fnName = "Strings"
+									case types.Int:
+										fnName = "Ints"
+									case types.Float64:
+										fnName = "Float64s"
+									}
+								}
+							}
+						}
+						if fnName == "" {
+							return true
+						}
+						sortName2, need2 := "", false
+						for _, imp := range file.Imports {
+							if strings.Trim(imp.Path.Value, "\"") == "sort" {
+								sortName2 = "sort"
+								if imp.Name != nil {
+									sortName2 = imp.Name.Name
+								}
+							}
+						}
+						if sortName2 == "" {
+							sortName2, need2 = "sort", true
+						}
+						if sc := pkg.Types.Scope().Innermost(x.Pos()); sc != nil {
+							if _, o := sc.LookupParent(sortName2, x.Pos()); o != nil {
+								if _, isPkg := o.(*types.PkgName); !isPkg {
+									return true
+								}
+							} else if !need2 {
+								return true
+							}
+						}
+						fe := in.file(x.Pos())
+						fe.edits = append(fe.edits, textEdit{start: in.off(x.Fun.Pos()), end: in.off(x.Fun.End()), text: sortName2 + "." + fnName})
+						if need2 && !addedSort {
+							addedSort = true
+							fe.edits = append(fe.edits, textEdit{start: in.off(file.Name.End()), end: in.off(file.Name.End()), text: "\n\nimport \"sort\"\n"})
+						}
+						taken = append(taken, [2]token.Pos{x.Fun.Pos(), x.Fun.End()})
+						keep[pkgIdent(x.Fun)] = true
+						plan.expanded = append(plan.expanded, "stdlib "+name)
+						return true
 					case "slices.SortFunc", "slices.SortStableFunc":
 						// slices.SortFunc(S, func(a, b T) int { ... return E })  ->
 						// sort.Slice(S, func(i, j int) bool { a, b := S[i], S[j]; ... return (E) < 0 })
@@ -290,8 +420,72 @@ func planCanon(p *Prog, stdlib, methods bool) canonPlan {
 							fn = "SliceStable"
 						}
 						fe.edits = append(fe.edits, textEdit{start: in.off(x.Fun.Pos()), end: in.off(x.Fun.End()), text: sortName + "." + fn})
-						fe.edits = append(fe.edits, textEdit{start: in.off(lit.Type.Pos()), end: in.off(lit.Body.Lbrace) + 1,
-							text: "func(" + iN + ", " + jN + " int) bool {\n" + pn[0] + ", " + pn[1] + " := " + sl + "[" + iN + "], " + sl + "[" + jN + "]\n_, _ = " + pn[0] + ", " + pn[1] + "\n"})
+						// the element parameters are replaced by S[i] / S[j] where they are only read (so that the
+						// comparator reads like a sort.Slice comparator); otherwise they are bound first
+						var pobjs [2]types.Object
+						k := 0
+						for _, fld := range lit.Type.Params.List {
+							for _, nm := range fld.Names {
+								if k < 2 {
+									pobjs[k] = info.Defs[nm]
+								}
+								k++
+							}
+						}
+						substOK := pobjs[0] != nil && pobjs[1] != nil
+						var uses [][2]interface{}
+						ast.Inspect(lit.Body, func(m ast.Node) bool {
+							switch y := m.(type) {
+							case *ast.AssignStmt:
+								for _, l := range y.Lhs {
+									if id, isId := ast.Unparen(l).(*ast.Ident); isId && (info.Uses[id] == pobjs[0] || info.Uses[id] == pobjs[1]) {
+										substOK = false
+									}
+								}
+							case *ast.UnaryExpr:
+								if id, isId := ast.Unparen(y.X).(*ast.Ident); isId && y.Op == token.AND && (info.Uses[id] == pobjs[0] || info.Uses[id] == pobjs[1]) {
+									substOK = false
+								}
+							case *ast.FuncLit:
+								substOK = false
+							case *ast.Ident:
+								if o := info.Uses[y]; o != nil && (o == pobjs[0] || o == pobjs[1]) {
+									idx := iN
+									if o == pobjs[1] {
+										idx = jN
+									}
+									uses = append(uses, [2]interface{}{y, idx})
+								}
+							}
+							return true
+						})
+						if substOK {
+							fe.edits = append(fe.edits, textEdit{start: in.off(lit.Type.Pos()), end: in.off(lit.Body.Lbrace) + 1,
+								text: "func(" + iN + ", " + jN + " int) bool {\n"})
+						} else {
+							fe.edits = append(fe.edits, textEdit{start: in.off(lit.Type.Pos()), end: in.off(lit.Body.Lbrace) + 1,
+								text: "func(" + iN + ", " + jN + " int) bool {\n" + pn[0] + ", " + pn[1] + " := " + sl + "[" + iN + "], " + sl + "[" + jN + "]\n_, _ = " + pn[0] + ", " + pn[1] + "\n"})
+						}
+						// text of an expression with the element parameters substituted
+						sub := func(e ast.Expr) string {
+							if !substOK {
+								return in.text(e.Pos(), e.End())
+							}
+							var sb strings.Builder
+							pos := e.Pos()
+							for _, u := range uses {
+								id := u[0].(*ast.Ident)
+								if id.Pos() < e.Pos() || id.End() > e.End() {
+									continue
+								}
+								sb.WriteString(in.text(pos, id.Pos()))
+								sb.WriteString(sl + "[" + u[1].(string) + "]")
+								pos = id.End()
+							}
+							sb.WriteString(in.text(pos, e.End()))
+							return sb.String()
+						}
+						var covered [][2]token.Pos
 						okRet := true
 						InspectNoLit(lit.Body, func(m ast.Node) bool {
 							if rs, isRet := m.(*ast.ReturnStmt); isRet {
@@ -300,6 +494,16 @@ func planCanon(p *Prog, stdlib, methods bool) canonPlan {
 									return true
 								}
 								e := rs.Results[0]
+								// cmp.Compare(x, y) < 0 is x < y (ordered operands; strings.Compare likewise)
+								if ce, isCall := ast.Unparen(e).(*ast.CallExpr); isCall && len(ce.Args) == 2 {
+									if n := stdName(ce.Fun); n == "cmp.Compare" || n == "strings.Compare" {
+										keep[pkgIdent(ce.Fun)] = true
+										fe.edits = append(fe.edits, textEdit{start: in.off(e.Pos()), end: in.off(e.End()),
+											text: "(" + sub(ce.Args[0]) + ") < (" + sub(ce.Args[1]) + ")"})
+										covered = append(covered, [2]token.Pos{e.Pos(), e.End()})
+										return true
+									}
+								}
 								fe.edits = append(fe.edits, textEdit{start: in.off(e.Pos()), end: in.off(e.Pos()), text: "("})
 								fe.edits = append(fe.edits, textEdit{start: in.off(e.End()), end: in.off(e.End()), text: ") < 0"})
 							}
@@ -307,6 +511,20 @@ func planCanon(p *Prog, stdlib, methods bool) canonPlan {
 						})
 						if !okRet {
 							return true // named results / bare returns: left alone (the edits above make the file fail to check, falling back)
+						}
+						if substOK {
+							for _, u := range uses {
+								id := u[0].(*ast.Ident)
+								in2 := false
+								for _, c := range covered {
+									if id.Pos() >= c[0] && id.End() <= c[1] {
+										in2 = true
+									}
+								}
+								if !in2 {
+									fe.edits = append(fe.edits, textEdit{start: in.off(id.Pos()), end: in.off(id.End()), text: sl + "[" + u[1].(string) + "]"})
+								}
+							}
 						}
 						if needImport && !addedSort {
 							addedSort = true
@@ -388,6 +606,10 @@ func planCanon(p *Prog, stdlib, methods bool) canonPlan {
 						tail += "var _ = slices.Clone[[]int]\n"
 					case "maps":
 						tail += "var _ = maps.Clone[map[int]int]\n"
+					case "cmp":
+						tail += "var _ = cmp.Compare[int]\n"
+					case "strings":
+						tail += "var _ = strings.Compare\n"
 					}
 				}
 				tail += strings.Join(decls, "\n")
@@ -409,6 +631,7 @@ func planCanon(p *Prog, stdlib, methods bool) canonPlan {
 	}
 	if methods {
 		planMethodRestore(p, in, &plan)
+		planParamObjects(p, in, &plan)
 	}
 	return plan
 }
@@ -731,5 +954,241 @@ func planMethodRestore(p *Prog, in *inliner, plan *canonPlan) {
 			fe.edits = append(fe.edits, e.edit)
 		}
 		plan.expanded = append(plan.expanded, "method restored: "+key)
+	}
+}
+
+// planParamObjects undoes "introduce parameter object": an unexported function with a parameter of an unexported struct
+// type of its own package, which it only reads field by field, gets the fields as separate parameters again (named like
+// the fields); every call site passes `arg.f1, arg.f2, ...` (or the values of a keyed literal). Calls must be direct.
+func planParamObjects(p *Prog, in *inliner, plan *canonPlan) {
+	for _, pkg := range p.Pkgs {
+		info := pkg.TypesInfo
+		for _, file := range pkg.Syntax {
+			fname := p.Fset.Position(file.Pos()).Filename
+			if strings.HasSuffix(fname, "_test.go") {
+				continue
+			}
+			for _, d := range file.Decls {
+				fd, ok := d.(*ast.FuncDecl)
+				if !ok || fd.Body == nil || fd.Type.Params == nil || fd.Type.TypeParams != nil || fd.Name.IsExported() {
+					continue
+				}
+				fobj, _ := info.Defs[fd.Name].(*types.Func)
+				if fobj == nil {
+					continue
+				}
+				for fi, fld := range fd.Type.Params.List {
+					if len(fld.Names) != 1 || fld.Names[0].Name == "_" {
+						continue
+					}
+					pv, _ := info.Defs[fld.Names[0]].(*types.Var)
+					if pv == nil {
+						continue
+					}
+					named, _ := pv.Type().(*types.Named)
+					if named == nil || named.Obj().Pkg() != pkg.Types || named.Obj().Exported() || named.TypeArgs() != nil {
+						continue
+					}
+					st, _ := named.Underlying().(*types.Struct)
+					if st == nil || st.NumFields() == 0 || st.NumFields() > 12 {
+						continue
+					}
+					if named.NumMethods() > 0 {
+						continue
+					}
+					// body: only field reads
+					okBody := true
+					var sels []*ast.SelectorExpr
+					ast.Inspect(fd.Body, func(n ast.Node) bool {
+						id, isId := n.(*ast.Ident)
+						if !isId || info.Uses[id] != types.Object(pv) {
+							return true
+						}
+						sel, isSel := p.parents[id].(*ast.SelectorExpr)
+						if !isSel || sel.X != ast.Expr(id) {
+							okBody = false
+							return true
+						}
+						if seln := info.Selections[sel]; seln == nil || seln.Kind() != types.FieldVal || len(seln.Index()) != 1 {
+							okBody = false
+							return true
+						}
+						switch par := p.parents[sel].(type) {
+						case *ast.AssignStmt:
+							for _, l := range par.Lhs {
+								if l == ast.Expr(sel) {
+									okBody = false
+								}
+							}
+						case *ast.UnaryExpr:
+							if par.Op == token.AND {
+								okBody = false
+							}
+						case *ast.IncDecStmt:
+							okBody = false
+						}
+						sels = append(sels, sel)
+						return true
+					})
+					if !okBody || len(sels) == 0 {
+						continue
+					}
+					// names: the field names must be free in the function
+					clash := false
+					used := map[string]bool{}
+					ast.Inspect(fd, func(n ast.Node) bool {
+						if id, isId := n.(*ast.Ident); isId {
+							if o := info.Defs[id]; o != nil && o != types.Object(pv) {
+								used[id.Name] = true
+							}
+						}
+						return true
+					})
+					var fnames, ftypes []string
+					qok := true
+					for k := 0; k < st.NumFields(); k++ {
+						f := st.Field(k)
+						if f.Embedded() || used[f.Name()] || f.Name() == "_" {
+							clash = true
+						}
+						// the name must not hide something the body uses (a package, a function)
+						if sc := pkg.Types.Scope().Innermost(fd.Body.Pos()); sc != nil {
+							if _, o := sc.LookupParent(f.Name(), fd.Body.Pos()); o != nil {
+								usedInBody := false
+								ast.Inspect(fd.Body, func(n ast.Node) bool {
+									if id, isId := n.(*ast.Ident); isId && info.Uses[id] == o {
+										usedInBody = true
+									}
+									return !usedInBody
+								})
+								if usedInBody {
+									clash = true
+								}
+							}
+						}
+						tt := types.TypeString(f.Type(), func(q *types.Package) string {
+							if q == pkg.Types {
+								return ""
+							}
+							for _, imp := range file.Imports {
+								if strings.Trim(imp.Path.Value, "\"") == q.Path() {
+									if imp.Name != nil {
+										return imp.Name.Name
+									}
+									return q.Name()
+								}
+							}
+							qok = false
+							return q.Name()
+						})
+						fnames = append(fnames, f.Name())
+						ftypes = append(ftypes, tt)
+					}
+					if clash || !qok {
+						continue
+					}
+					// call sites: direct calls only
+					var calls []*ast.CallExpr
+					okRefs := true
+					for _, f2 := range pkg.Syntax {
+						ast.Inspect(f2, func(n ast.Node) bool {
+							id, isId := n.(*ast.Ident)
+							if !isId || info.Uses[id] != types.Object(fobj) {
+								return true
+							}
+							var callee ast.Expr = id
+							if sel, isSel := p.parents[id].(*ast.SelectorExpr); isSel && sel.Sel == id {
+								callee = sel
+							}
+							call, isCall := p.parents[callee].(*ast.CallExpr)
+							if !isCall || call.Fun != callee || call.Ellipsis.IsValid() {
+								okRefs = false
+								return true
+							}
+							calls = append(calls, call)
+							return true
+						})
+					}
+					// the flattened argument index of this parameter
+					argIdx := 0
+					for j := 0; j < fi; j++ {
+						n := len(fd.Type.Params.List[j].Names)
+						if n == 0 {
+							n = 1
+						}
+						argIdx += n
+					}
+					if !okRefs || len(calls) == 0 {
+						continue
+					}
+					type argEdit struct {
+						call *ast.CallExpr
+						text string
+					}
+					var aes []argEdit
+					okArgs := true
+					for _, c := range calls {
+						if argIdx >= len(c.Args) {
+							okArgs = false
+							break
+						}
+						a := ast.Unparen(c.Args[argIdx])
+						var parts []string
+						if cl, isLit := a.(*ast.CompositeLit); isLit {
+							vals := map[string]string{}
+							for _, el := range cl.Elts {
+								kv, isKV := el.(*ast.KeyValueExpr)
+								if !isKV {
+									okArgs = false
+									break
+								}
+								if k, isId := kv.Key.(*ast.Ident); isId {
+									vals[k.Name] = in.text(kv.Value.Pos(), kv.Value.End())
+								}
+							}
+							for _, fnm := range fnames {
+								v, has := vals[fnm]
+								if !has {
+									okArgs = false // a zero value would have to be spelt
+									break
+								}
+								parts = append(parts, v)
+							}
+						} else if isPlainOperand(a) {
+							at := in.text(a.Pos(), a.End())
+							for _, fnm := range fnames {
+								parts = append(parts, at+"."+fnm)
+							}
+						} else {
+							okArgs = false
+						}
+						if !okArgs {
+							break
+						}
+						aes = append(aes, argEdit{c, strings.Join(parts, ", ")})
+					}
+					if !okArgs {
+						continue
+					}
+					// edits
+					var plist []string
+					for k := range fnames {
+						plist = append(plist, fnames[k]+" "+ftypes[k])
+					}
+					fe := in.file(fd.Pos())
+					fe.edits = append(fe.edits, textEdit{start: in.off(fld.Pos()), end: in.off(fld.End()), text: strings.Join(plist, ", ")})
+					for _, sel := range sels {
+						fe.edits = append(fe.edits, textEdit{start: in.off(sel.Pos()), end: in.off(sel.End()), text: sel.Sel.Name})
+					}
+					for _, ae := range aes {
+						a := ae.call.Args[argIdx]
+						fe2 := in.file(a.Pos())
+						fe2.edits = append(fe2.edits, textEdit{start: in.off(a.Pos()), end: in.off(a.End()), text: ae.text})
+					}
+					plan.expanded = append(plan.expanded, "parameter object of "+fd.Name.Name+" flattened")
+					break // one parameter per function and round
+				}
+			}
+		}
 	}
 }
